@@ -360,11 +360,10 @@ def task_render(pr, repo):
                            (nd, ' coupled' if coupled else ''), And(*[c if not isinstance(c, bool) else c for c in conj]))
                 s2 = ex.call_function(repo.func(G + '.get_summary_string'), [False], self_obj=g)
                 ok2 = isinstance(s2, FmtStr) and len(s2.fmt_parts()) == 1
-                if ok2:
-                    k = s2.fmt_parts()[0][3]
-                    ok2 = k.get('g') is g
-                ctx.oblige('RD: summary row is formatted from the group itself ({g.label}, {g.pka_value}, {g.model_pka})',
-                           ok2 and '{g.pka_value:8.2f}' in s2.fmt_parts()[0][1] and '{g.model_pka:10.2f}' in s2.fmt_parts()[0][1])
+                vals = FmtStr.values_of(s2.fmt_parts()[0]) if ok2 else []
+                has = lambda f: any(isinstance(v, tuple) and v[0] == 'attr' and v[1] is g and v[2] == f for v in vals)     # noqa
+                ctx.oblige('RD: the summary row prints this group\'s label, pka_value and model_pka',
+                           ok2 and has('label') and has('pka_value') and has('model_pka'))
             pr.explore(ex, thunk, 'get_determinant_string %s' % (nd,))
 
 
